@@ -120,8 +120,8 @@ CLAIMS = {
  'C13': dict(
    technique='static analysis: interprocedural dependence (information-flow) analysis with shape/value separation and per-key tracking of result dictionaries; ownership classification of stores under prange',
    text='Decides only the second sentence of C13 and the schedule part of the first: neither the values nor the lengths of pos, w, pos2, w2 can reach N_mode, N_mode_poles, the k and mu range columns or the shape of any result column of calc_power (with a positive control that the power column does depend on them); '
-        'every store under prange in the kernels on that path is private, so the thread count only changes floating-point summation order; the in-place normalisation passes visit every cell of the mesh (direct, block-table or chunked forms; a dropped remainder is refuted).',
-   note='NOT decided: permutation, translation and cross=auto invariance (numerical identities of the pipeline; e.g. mis-indexed interlacing phases or transposed compensation axes are invisible to these rules). Termination-insensitive; library calls modelled conservatively.',
+        'every store under prange in the kernels on that path is private, so the thread count only changes floating-point summation order; the in-place normalisation passes visit every cell of the mesh (direct, block-table or chunked forms; a dropped remainder is refuted); get_raw_power is the Hermitian product, evaluated over complex algebra: the cross branch with field2 = field equals the auto branch and a phase factor common to both fields cancels.',
+   note='NOT decided: permutation invariance, translation invariance of the painting / interlacing / compensation stages and cross=auto upstream of get_raw_power (numerical identities of the pipeline; e.g. mis-indexed interlacing phases or transposed compensation axes are invisible to these rules). Termination-insensitive; library calls modelled conservatively.',
    design_ref='DESIGN.md section 4, C13'),
 }
 _NB = 'rule family not built yet in this session (claimed only once its checker exists; see DESIGN.md section 4)'
